@@ -1,4 +1,197 @@
+import BobModel.Model.Memo
+import BobModel.Util.Sha1
 import BobModel.Util.Proto
-open Lean Proto
-/-- stub driver of C04: replaced when the model of this property is built -/
-def main : IO Unit := runPure fun _ => err "unsupported"
+open Lean Proto Memo
+
+/-
+Stateful driver of the C04 model (one JSON request per line, one reply per line).
+
+tracked environments (real `stringparser.Env`; keys and values are strings):
+ {"op":"reset"}
+ {"op":"new","data":[[k,v]..]}                      -> {"id":n}
+ {"op":"get"|"contains","e":i,"k":s}                -> {"v":s|null} / {"v":bool}
+ {"op":"set","e":i,"k":s,"v":s} {"op":"del","e":i,"k":s} -> {"ok":bool}
+ {"op":"update","e":i,"data":[..]} {"op":"clear","e":i}
+ {"op":"copy","e":i} {"op":"derive","e":i,"data":[..]} {"op":"prune","e":i,"allowed":[..]|null}
+ {"op":"filter","e":i,"allowed":[[neg,name]..]|null}  -> {"id":n}
+ {"op":"touchReset","e":i} {"op":"touch","e":i,"keys":[..]} {"op":"touchedKeys","e":i} -> {"keys":[sorted]}
+ {"op":"detach","e":i} -> {"data":[sorted items]}      {"op":"len","e":i} -> {"v":n}
+ {"op":"dump"} -> {"envs":[{"data":[..],"touched":[ids]}..],"sets":[[sorted keys]..]}
+matcher (PackageMatcher over a variable Env and a tool Env whose values are resultId strings):
+ {"op":"mkMatcher","env":i,"tools":j,"x":s,"result":n} -> {"id":n,"env":[[k,v|null]..],"tools":[..]}
+ {"op":"matches","m":id,"envData":[..],"toolsData":[..],"x":s} -> {"v":bool}
+ {"op":"findHit","ms":[ids],"envData":..,"toolsData":..,"x":s} -> {"v":index|null}
+ {"op":"matcherTouch","m":id,"env":i,"tools":j}
+YAML cache / cache key (SHA-1):
+ {"op":"ycReset"} {"op":"ycOpen","inputHash":hex} -> {"hot":bool}
+ {"op":"ycLoad","name":s,"stat":hex|null,"content":hex,"schema":hex} -> {"r":"absent"|"err"|{"ok":hex}}
+ {"op":"ycBinary","name":s,"present":bool,"content":hex}
+ {"op":"ycClose"} -> {"digest":hex,"files":[[name,hex]..]}
+ {"op":"cacheKey","inputHash":hex,"files":[[name,hexdigest]..],"env":[[k,v]..],"sandbox":bool} -> {"key":hex}
+-/
+
+abbrev SEnv := TEnv String String
+abbrev SMatcher := Matcher String String String Nat
+
+structure St where
+  heap : Heap String := ⟨[]⟩
+  envs : Array SEnv := #[]
+  ms : Array SMatcher := #[]
+  yc : YCache Bytes := ⟨[], none⟩
+  ys : YSession := ⟨false, []⟩
+
+def pairs (j : Json) (k : String) : List (String × String) :=
+  (getArr j k).filterMap fun p => match p with
+    | .arr a => match a.toList with
+      | [Json.str x, Json.str y] => some (x, y)
+      | _ => none
+    | _ => none
+
+def sortStr (l : List String) : List String := (l.toArray.qsort (· < ·)).toList
+def sortPairs (l : List (String × String)) : List (String × String) := (l.toArray.qsort (fun a b => a.1 < b.1)).toList
+
+def jPairs (l : List (String × String)) : Json :=
+  Json.arr ((sortPairs l).map fun p => Json.arr #[Json.str p.1, Json.str p.2]).toArray
+
+def jStrs (l : List String) : Json := Json.arr ((sortStr l).map Json.str).toArray
+
+def envOf (s : St) (j : Json) (k : String := "e") : SEnv := (s.envs[getNat j k]?).getD ⟨[], []⟩
+
+def addEnv (s : St) (e : SEnv) : St × Json :=
+  ({ s with envs := s.envs.push e }, Json.mkObj [("id", Json.num s.envs.size)])
+
+def setEnv (s : St) (j : Json) (e : SEnv) : St := { s with envs := s.envs.set! (getNat j "e") e }
+
+def lookupFn (d : List (String × String)) : Envf String String := fun k => dlookup d k
+
+/-- environment seen by the matcher: variables under "e:", tools (result ids) under "t:" -/
+def combined (envData toolsData : List (String × String)) : Envf String String := fun k =>
+  if k.startsWith "e:" then dlookup envData (k.drop 2).toString
+  else if k.startsWith "t:" then dlookup toolsData (k.drop 2).toString
+  else none
+
+def optStr (o : Option String) : Json := match o with | some v => Json.str v | none => Json.null
+
+def ok : Json := Json.mkObj [("ok", Json.bool true)]
+
+/-- the driver's YAML "parser": content starting with '[' does not validate, everything else parses to itself
+prefixed by the schema digest -/
+def parseD (sd content : Bytes) : Except Unit Bytes :=
+  match content with
+  | 91 :: _ => .error ()
+  | _ => .ok (sd ++ [0] ++ content)
+
+def H (b : Bytes) : Bytes := Sha1.hashBytes b
+
+def hexOpt (j : Json) (k : String) : Option Bytes :=
+  match j.getObjVal? k with
+  | .ok (.str s) => Bytes.ofHex s
+  | _ => none
+
+def step (s : St) (j : Json) : St × Json :=
+  match getStr j "op" with
+  | "reset" => ({ s with heap := ⟨[]⟩, envs := #[], ms := #[] }, ok)
+  | "new" =>
+    let (h, e) := TEnv.new s.heap (pairs j "data")
+    addEnv { s with heap := h } e
+  | "get" =>
+    let (h, v) := (envOf s j).get s.heap (getStr j "k")
+    ({ s with heap := h }, Json.mkObj [("v", optStr v)])
+  | "contains" =>
+    let (h, v) := (envOf s j).contains s.heap (getStr j "k")
+    ({ s with heap := h }, Json.mkObj [("v", Json.bool v)])
+  | "set" => (setEnv s j ((envOf s j).setitem (getStr j "k") (getStr j "v")), ok)
+  | "del" =>
+    match (envOf s j).delitem (getStr j "k") with
+    | some e => (setEnv s j e, ok)
+    | none => (s, Json.mkObj [("ok", Json.bool false)])
+  | "update" => (setEnv s j ((envOf s j).update (pairs j "data")), ok)
+  | "clear" => (setEnv s j (envOf s j).clear, ok)
+  | "copy" => addEnv s (envOf s j).copy
+  | "derive" => addEnv s ((envOf s j).derive (pairs j "data"))
+  | "prune" =>
+    let a := match j.getObjVal? "allowed" with
+      | .ok (.arr a) => some (strList (.arr a))
+      | _ => none
+    addEnv s ((envOf s j).prune a)
+  | "filter" =>
+    let a := match j.getObjVal? "allowed" with
+      | .ok (.arr a) => some (a.toList.filterMap fun p => match p with
+          | .arr q => match q.toList with
+            | [Json.bool b, Json.str n] => some (b, n)
+            | _ => none
+          | _ => none)
+      | _ => none
+    addEnv s ((envOf s j).filter a)
+  | "touchReset" =>
+    let (h, e) := (envOf s j).touchReset s.heap
+    (setEnv { s with heap := h } j e, ok)
+  | "touch" => ({ s with heap := (envOf s j).touch s.heap (strList (j.getObjValD "keys")) }, ok)
+  | "touchedKeys" => (s, Json.mkObj [("keys", jStrs ((envOf s j).touchedKeys s.heap))])
+  | "detach" => (s, Json.mkObj [("data", jPairs (envOf s j).detach)])
+  | "len" => (s, Json.mkObj [("v", Json.num (envOf s j).data.length)])
+  | "dump" =>
+    (s, Json.mkObj [
+      ("envs", Json.arr (s.envs.map fun e => Json.mkObj [("data", jPairs e.data),
+        ("touched", Json.arr (e.touched.map fun (i : Nat) => Json.num (JsonNumber.fromNat i)).toArray)])),
+      ("sets", Json.arr (s.heap.sets.map jStrs).toArray)])
+  | "mkMatcher" =>
+    let e := envOf s j "env"
+    let t := envOf s j "tools"
+    let keys := ((e.touchedKeys s.heap).map ("e:" ++ ·)) ++ ((t.touchedKeys s.heap).map ("t:" ++ ·))
+    let m : SMatcher := Matcher.make id (combined e.data t.data) keys (getStr j "x") (getNat j "result")
+    let show_ := fun (pre : String) => Json.arr ((m.keys.filter (·.1.startsWith pre)).map fun p =>
+      Json.arr #[Json.str (p.1.drop 2).toString, optStr p.2]).toArray
+    ({ s with ms := s.ms.push m }, Json.mkObj [("id", Json.num s.ms.size), ("env", show_ "e:"), ("tools", show_ "t:")])
+  | "matches" =>
+    match s.ms[getNat j "m"]? with
+    | some m => (s, Json.mkObj [("v", Json.bool
+        (m.matches id (combined (pairs j "envData") (pairs j "toolsData")) (getStr j "x")))])
+    | none => (s, err "no-matcher")
+  | "findHit" =>
+    let ids := (getArr j "ms").filterMap fun x => x.getNat?.toOption
+    let e := combined (pairs j "envData") (pairs j "toolsData")
+    let x := getStr j "x"
+    let hit := ids.findIdx? fun i => match s.ms[i]? with
+      | some m => m.matches id e x
+      | none => false
+    (s, Json.mkObj [("v", match hit with | some i => Json.num i | none => Json.null)])
+  | "matcherTouch" =>
+    match s.ms[getNat j "m"]? with
+    | some m =>
+      let ek := (m.touchKeys.filter (·.startsWith "e:")).map fun k => (k.drop 2).toString
+      let tk := (m.touchKeys.filter (·.startsWith "t:")).map fun k => (k.drop 2).toString
+      let h1 := (envOf s j "env").touch s.heap ek
+      let h2 := (envOf s j "tools").touch h1 tk
+      ({ s with heap := h2 }, ok)
+    | none => (s, err "no-matcher")
+  | "ycReset" => ({ s with yc := ⟨[], none⟩, ys := ⟨false, []⟩ }, ok)
+  | "ycOpen" =>
+    let (c, ys) := s.yc.openSession (hexBytes j "inputHash")
+    ({ s with yc := c, ys := ys }, Json.mkObj [("hot", Json.bool ys.hot)])
+  | "ycLoad" =>
+    let name := (getStr j "name").toList
+    let fs : FS := fun n => if n = name then (hexOpt j "stat").map fun st => (st, hexBytes j "content") else none
+    let (c, ys, r) := loadYaml H parseD fs s.yc s.ys name (hexBytes j "schema")
+    let rj := match r with
+      | none => Json.str "absent"
+      | some (.error _) => Json.str "err"
+      | some (.ok d) => Json.mkObj [("ok", Json.str (Bytes.toHex d))]
+    ({ s with yc := c, ys := ys }, Json.mkObj [("r", rj)])
+  | "ycBinary" =>
+    let name := (getStr j "name").toList
+    let fs : FS := fun n => if n = name ∧ getBool j "present" then some ([], hexBytes j "content") else none
+    let (ys, r) := loadBinary H fs s.ys name
+    ({ s with ys := ys }, Json.mkObj [("present", Json.bool r.isSome)])
+  | "ycClose" =>
+    (s, Json.mkObj [("digest", Json.str (Bytes.toHex (filesDigest H utf8 s.ys.files))),
+      ("files", Json.arr ((sortItems s.ys.files).map fun p =>
+        Json.arr #[Json.str (String.ofList p.1), Json.str (Bytes.toHex p.2)]).toArray)])
+  | "cacheKey" =>
+    let files := (pairs j "files").filterMap fun p => (Bytes.ofHex p.2).map fun d => (p.1.toList, d)
+    let env := (pairs j "env").map fun p => (p.1.toList, p.2.toList)
+    (s, Json.mkObj [("key", Json.str (Bytes.toHex
+      (cacheKey H utf8 (hexBytes j "inputHash") files env (getBool j "sandbox"))))])
+  | _ => (s, err "bad-op")
+
+def main : IO Unit := run St {} step
